@@ -60,10 +60,17 @@ except Exception as e:
     # means the harness cannot judge this tree: exit 2 (inconclusive), never an alarm
     tb = e.__traceback__
     last = None
+    in_repo = False
+    root = os.path.realpath(REPO) + os.sep
     while tb is not None:
         last = tb.tb_frame.f_code.co_filename
+        if os.path.realpath(last).startswith(root):
+            in_repo = True          # the exception passed through chartparse code
         tb = tb.tb_next
-    in_repo = last is not None and os.path.realpath(last).startswith(os.path.realpath(REPO) + os.sep)
+    if type(e).__name__ == "Poison":
+        in_repo = False             # a stub was used outside its contract: the harness cannot judge
+    if type(e).__name__ == "IsolatedFailure":
+        in_repo = (root + "chartparse") in str(e)      # traceback text of the fresh-interpreter run
     if not in_repo:
         print("CANNOT-JUDGE: the exception comes from the harness, not from chartparse:", last)
         sys.exit(2)
